@@ -69,3 +69,185 @@ pub fn c02(ctx: &Ctx) -> (CheckMeta, Outcome) {
     };
     (meta, out)
 }
+
+pub fn reduced_alphabet(w: usize, pk: usize) -> Vec<ROp> {
+    let mut a = vec![];
+    let mut ns: Vec<usize> = vec![0, 1, 2, 7, 8, 9, w - 1, w, w + 1, 31, 32, 33, 63, 64];
+    ns.sort();
+    ns.dedup();
+    for n in ns {
+        if n <= 64 {
+            a.push(ROp::ReadBits(n as u8));
+        }
+    }
+    let mut ps: Vec<usize> = vec![1, 2, pk / 2, pk - 1, pk, 9, 12];
+    ps.sort();
+    ps.dedup();
+    for n in ps {
+        if n >= 1 && n <= pk {
+            a.push(ROp::Peek(n as u8));
+        }
+    }
+    let mut ss: Vec<usize> = vec![0, 1, w - 1, w, w + 1, 2 * w, 2 * w + 1];
+    ss.sort();
+    ss.dedup();
+    for n in ss {
+        a.push(ROp::Skip(n as u16));
+    }
+    a.push(ROp::Unary);
+    a
+}
+
+pub fn code_ops() -> Vec<ROp> {
+    use crate::model::Code;
+    let mut a = vec![];
+    for c in [Code::Gamma, Code::Delta, Code::Zeta(3), Code::Zeta(2), Code::Omega, Code::Pi(2), Code::Rice(2), Code::Golomb(3), Code::ExpGolomb(1), Code::MinBin(5), Code::VByteBe, Code::VByteLe] {
+        a.extend(crate::streams::read_variants(c, false));
+    }
+    a
+}
+
+fn std_meta(property: &'static str, level: &'static str, rule: &str) -> CheckMeta {
+    CheckMeta {
+        property,
+        level,
+        rule: rule.into(),
+        assumptions: vec!["reference model = canonical layout + textbook codecs (harness/src/model.rs)".into(), "little-endian 64-bit host".into()],
+    }
+}
+
+pub fn c07(ctx: &Ctx) -> (CheckMeta, Outcome) {
+    let nbits = if ctx.thorough { 512 } else { 256 };
+    let mut tasks: Vec<Task> = vec![];
+    for e in End::BOTH {
+        for kind in KINDS {
+            for backend in BACKENDS {
+                let diag = ctx.diag[kind];
+                let seed = ctx.seed;
+                let thorough = ctx.thorough;
+                tasks.push(Box::new(move || {
+                    let mut out = Outcome::new();
+                    let (w, pk) = kind_word(kind);
+                    let mut alphabet = reduced_alphabet(w, pk);
+                    alphabet.extend(code_ops());
+                    for n in [0u16, 1, 3, 8, 9, 17] {
+                        alphabet.push(ROp::IoRead(n));
+                    }
+                    for p in 0..=nbits as u64 {
+                        alphabet.push(ROp::SetPos(p));
+                    }
+                    let imgs = images(e, nbits, seed, thorough);
+                    let take = if thorough { 6 } else { 2 };
+                    for img in imgs.iter().take(take) {
+                        let model = RdModel { bits: Bits::from_bytes(&img.bytes, e), e, zx: backend == "memzx", limit: nbits + 96, tables_ok: diag };
+                        let rd = make_reader(e, kind, backend, "", &img.bytes);
+                        let run = RdRun { property: "C07", model: &model, image: &img.bytes, alphabet: &alphabet, max_states: 0, check_counter: false };
+                        out.merge(explore(&run, rd));
+                    }
+                    out
+                }));
+            }
+        }
+    }
+    let out = run_all(tasks, threads());
+    (
+        std_meta(
+            "C07",
+            "model_checking",
+            "BFS to the fixpoint of the real reader for every (endianness, reader kind, backend in zero-extended/strict memory, vector/slice writer read back, Cursor and BufReader<Cursor> through WordAdapter); alphabet: boundary read_bits/peek/skip, read_unary, every read variant (tables on/off) of 12 codes, io::Read of 0,1,3,8,9,17 bytes, and set_bit_pos(p) for EVERY p in 0..=L from EVERY reachable state; after every transition bit_pos() must equal the model position; a post-seek object that differs from every sequentially reached state is a new state and is expanded with the full alphabet (differential oracle: seek(p) == fresh reader that consumed p bits)",
+        ),
+        out,
+    )
+}
+
+pub fn c09(ctx: &Ctx) -> (CheckMeta, Outcome) {
+    let full = if ctx.thorough { 384 } else { 256 };
+    let mut tasks: Vec<Task> = vec![];
+    for e in End::BOTH {
+        for kind in KINDS {
+            for backend in BACKENDS {
+                let diag = ctx.diag[kind];
+                let seed = ctx.seed;
+                let thorough = ctx.thorough;
+                tasks.push(Box::new(move || {
+                    let mut out = Outcome::new();
+                    let (w, pk) = kind_word(kind);
+                    let mut alphabet = reduced_alphabet(w, pk);
+                    alphabet.extend(code_ops());
+                    for n in [1u16, 2, 8, 9] {
+                        alphabet.push(ROp::IoRead(n));
+                    }
+                    let imgs = images(e, full, seed, false);
+                    // image 1 = valid mixed-code stream; image 0 = seeded
+                    let which: Vec<usize> = if thorough { vec![1, 0, 2] } else { vec![1] };
+                    for ii in which {
+                        let img = &imgs[ii];
+                        // truncate after every backend word
+                        let wb = w / 8;
+                        let mut cut = wb;
+                        let mut ncuts = 0u64;
+                        while cut <= img.bytes.len() {
+                            let bytes = &img.bytes[..cut];
+                            let model = RdModel { bits: Bits::from_bytes(bytes, e), e, zx: backend == "memzx", limit: cut * 8 + 80, tables_ok: diag };
+                            let rd = make_reader(e, kind, backend, "", bytes);
+                            let run = RdRun { property: "C09", model: &model, image: bytes, alphabet: &alphabet, max_states: 0, check_counter: false };
+                            out.merge(explore(&run, rd));
+                            cut += wb;
+                            ncuts += 1;
+                        }
+                        out.cov.add_extra("truncation_points", ncuts);
+                    }
+                    out
+                }));
+            }
+        }
+    }
+    let mut out = run_all(tasks, threads());
+    out.cov.evaluations = out.cov.transitions;
+    // non-trivial: transitions that needed a bit beyond the cut (must-error on strict, zero-extension on memzx)
+    out.cov.nontrivial = out.cov.per_class.values().sum::<u64>().min(out.cov.obs.values().map(|s| s.len() as u64).sum());
+    (
+        std_meta(
+            "C09",
+            "fault_enumeration",
+            "a valid mixed-code stream is truncated after EVERY backend word; for every truncation point the reader state space is explored to its fixpoint on strict backends (strict memory reader, vector and slice writers read back, WordAdapter over a truncated Cursor / BufReader) and on the zero-extended reader; the model classifies every (state, operation): needs only bits inside the data => must return Ok with the model value (incl. table-driven reads whose look-ahead passes the end); needs a bit beyond the end => must return Err on strict backends (never a value, never a panic) and the zero-extended value on MemWordReader::new; alphabet: boundary read_bits/peek/skip, unary, all read variants of 12 codes, io::Read; distinct_nontrivial = number of distinct observations",
+        ),
+        out,
+    )
+}
+
+pub fn c12_read(ctx: &Ctx) -> Outcome {
+    let nbits = if ctx.thorough { 768 } else { 512 };
+    let mut tasks: Vec<Task> = vec![];
+    for e in End::BOTH {
+        for kind in KINDS {
+            for backend in ["memzx", "memstrict", "cursor"] {
+                let diag = ctx.diag[kind];
+                let seed = ctx.seed;
+                let thorough = ctx.thorough;
+                tasks.push(Box::new(move || {
+                    let mut out = Outcome::new();
+                    let (w, _pk) = kind_word(kind);
+                    let mut alphabet: Vec<ROp> = vec![];
+                    for n in 0..=(if thorough { 2 * w + 1 } else { w + 1 }).min(64) {
+                        alphabet.push(ROp::ReadBits(n as u8));
+                    }
+                    alphabet.push(ROp::Peek(w.min(32) as u8));
+                    alphabet.push(ROp::Unary);
+                    for n in 0..=40u16 {
+                        alphabet.push(ROp::IoRead(n));
+                    }
+                    let imgs = images(e, nbits, seed, thorough);
+                    for img in imgs.iter().take(if thorough { 4 } else { 1 }) {
+                        let model = RdModel { bits: Bits::from_bytes(&img.bytes, e), e, zx: backend == "memzx", limit: nbits + 64, tables_ok: diag };
+                        let rd = make_reader(e, kind, backend, "", &img.bytes);
+                        let run = RdRun { property: "C12", model: &model, image: &img.bytes, alphabet: &alphabet, max_states: 0, check_counter: false };
+                        out.merge(explore(&run, rd));
+                    }
+                    out
+                }));
+            }
+        }
+    }
+    run_all(tasks, threads())
+}
